@@ -3,17 +3,27 @@ C15 — 'batchable' functions really are batchable, and the marks in
 src/earthkit/workflows/backends/__init__.py (table `Gen.marks`, regenerated from the source on
 every run) are right.
 
-`IsBatchable f` (Model/Backend.lean): for every rank, every cut of the arguments into ≥ 2
-non-empty batches — a batch of one array is passed through, a longer one is reduced with `f`,
-exactly as fluent `reduce` does — `f (reduced batches) = f (all arguments)`, as an equality of
-arrays (rank, extents, every value).  Unbounded: any number of batches, any batch sizes, any
-array shape.  The agreement of `sem` with the real back ends and with NumPy is the job of the
-correspondence check (harness/ekw/props/c15.py).
+Two readings of the law are stated (Model/Backend.lean):
+
+* `IsBatchable f` — what fluent `reduce` computes: for every rank, every cut of the arguments
+  into ≥ 2 non-empty batches, a batch of one array passed through and a longer one reduced with
+  `f`: `f (reduced batches) = f (all arguments)`, as an equality of arrays (rank, extents, every
+  value).  Unbounded: any number of batches, any batch sizes, any array shape.
+* `IsBatchableLit f` — the property text read literally: EVERY batch goes through `f`
+  (`f(f(b₁),…,f(bₖ)) = f(all)`, k ≥ 1).  It holds for `concat`, and for the reductions exactly on
+  the partitions without a single-array batch (`…_literal_partial`, `…_literal_full_fails`).
+
+The element type and its arithmetic are parameters (`Alg α`): the reductions are batchable for
+EVERY dtype whose operation is associative (`c15_sum_batchable` …), which is proved for exact
+rationals, for NumPy's wrapping fixed-width integers, for bool and — `min`/`max` only — for
+IEEE binary64 with NaN and infinities; for binary64 `sum`/`prod` the law is FALSE
+(`c15_sum_dtype_full_fails`: rounding makes `+` non-associative).
 
 `sq` is the square root used by `std`; theorems quantify over it (only `sq 0 = 0`, `sq 1 = 1`
 is ever assumed, which the real square root satisfies).
 -/
 import EkwVerif.Model.Backend
+import EkwVerif.Model.F64
 import EkwVerif.Lemmas.Backend
 import EkwVerif.Gen.BackendMarks
 
@@ -21,100 +31,362 @@ namespace EkwVerif.Backend
 
 open Aux
 
+section generic
+variable {α : Type} [Inhabited α]
+
 /-! ### several arguments: the reduction acts elementwise across the arguments -/
 
 /-- `f(a₁,…,aₖ)` for k ≥ 2 (stack on a new leading axis, reduce it) has the shape of the first
 argument and, at every index, the scalar reduction of the arguments' values there; the caller's
 `axis`/`dim` plays no role.  This is the pointwise lifting used by all batch theorems. -/
-theorem c15_multiarg_pointwise (f : List Val → Val) (ax : Option Int) (args : List Arr)
+theorem c15_multiarg_pointwise (f : List α → α) (ax : AxisArg) (args : List (Arr α))
     (h : 2 ≤ args.length) (i : Idx) :
     (multiArg f ax args).get i = f (args.map fun x => x.get i) ∧
     (multiArg f ax args).rank = (args.headD Arr.zero).rank ∧
     (multiArg f ax args).ext = (args.headD Arr.zero).ext := by
   rw [multiArg_ge2 f ax args h]; exact ⟨rfl, rfl, rfl⟩
 
-example : (multiArg vsum (some 1) [Arr.vec [1, 2], Arr.vec [10, 20]]).get (fun _ => 1) = 22 := by
-  rw [(c15_multiarg_pointwise vsum (some 1) _ (by simp) _).1]; simp [Arr.vec, vsum, fold1]; grind
+/-! ### batchable: for every dtype whose operation is associative -/
 
-/-! ### batchable -/
+theorem c15_sum_batchable (A : Alg α) [Std.Associative A.add] (sq : α → α) (kw : Kw) :
+    IsBatchable (sem A sq kw .sum) :=
+  multiArg_batchable (vsum A) (fun _ => rfl) (vsum_batchable A) kw.axis
 
-theorem c15_sum_batchable (sq : Val → Val) (kw : Kw) : IsBatchable (sem sq kw .sum) :=
-  multiArg_batchable vsum (fun _ => rfl) vsum_batchable kw.axis
+theorem c15_prod_batchable (A : Alg α) [Std.Associative A.mul] (sq : α → α) (kw : Kw) :
+    IsBatchable (sem A sq kw .prod) :=
+  multiArg_batchable (vprod A) (fun _ => rfl) (vprod_batchable A) kw.axis
 
-theorem c15_prod_batchable (sq : Val → Val) (kw : Kw) : IsBatchable (sem sq kw .prod) :=
-  multiArg_batchable vprod (fun _ => rfl) vprod_batchable kw.axis
+theorem c15_min_batchable (A : Alg α) [Std.Associative A.min] (sq : α → α) (kw : Kw) :
+    IsBatchable (sem A sq kw .min) :=
+  multiArg_batchable (vmin A) (fun _ => rfl) (vmin_batchable A) kw.axis
 
-theorem c15_min_batchable (sq : Val → Val) (kw : Kw) : IsBatchable (sem sq kw .min) :=
-  multiArg_batchable vmin (fun _ => rfl) vmin_batchable kw.axis
+theorem c15_max_batchable (A : Alg α) [Std.Associative A.max] (sq : α → α) (kw : Kw) :
+    IsBatchable (sem A sq kw .max) :=
+  multiArg_batchable (vmax A) (fun _ => rfl) (vmax_batchable A) kw.axis
 
-theorem c15_max_batchable (sq : Val → Val) (kw : Kw) : IsBatchable (sem sq kw .max) :=
-  multiArg_batchable vmax (fun _ => rfl) vmax_batchable kw.axis
-
-/-- concatenation along any (also negative) axis, for arguments of any extents along it -/
-theorem c15_concat_batchable (sq : Val → Val) (kw : Kw) : IsBatchable (sem sq kw .concat) :=
+/-- concatenation along any (also negative) axis, for arguments of any extents along it, for
+every element type (no arithmetic is involved) -/
+theorem c15_concat_batchable (A : Alg α) (sq : α → α) (kw : Kw) : IsBatchable (sem A sq kw .concat) :=
   concatKw_batchable kw.axis
+
+end generic
 
 /-- non-vacuity: a cut 2+1+3 of six vectors satisfies the hypotheses, and the common value is
 the one expected -/
 example :
-    let bs := [[Arr.vec [1, 2], Arr.vec [3, 4]], [Arr.vec [5, 6]], [Arr.vec [0, 1], Arr.vec [2, 2], Arr.vec [7, 7]]]
-    batched (sem id {} .sum) bs = sem id {} .sum bs.flatten ∧
-    batched (sem id {} .min) bs = sem id {} .min bs.flatten ∧
-    batched (sem id {axis := some (-1)} .concat) bs = sem id {axis := some (-1)} .concat bs.flatten ∧
-    (sem id {} .sum bs.flatten).get (fun _ => 1) = 22 := by
+    let bs : List (List (Arr Rat)) :=
+      [[Arr.vec [1, 2], Arr.vec [3, 4]], [Arr.vec [5, 6]], [Arr.vec [0, 1], Arr.vec [2, 2], Arr.vec [7, 7]]]
+    batched (sem Alg.rat id {} .sum) bs = sem Alg.rat id {} .sum bs.flatten ∧
+    batched (sem Alg.rat id {} .min) bs = sem Alg.rat id {} .min bs.flatten ∧
+    batched (sem Alg.rat id {axis := .one (-1)} .concat) bs = sem Alg.rat id {axis := .one (-1)} .concat bs.flatten ∧
+    (sem Alg.rat id {} .sum bs.flatten).get (fun _ => 1) = 22 := by
   intro bs
   have hr : ∀ b ∈ bs, ∀ x ∈ b, x.rank = 1 := by simp [bs, Arr.vec]
-  refine ⟨c15_sum_batchable id {} 1 bs (by simp [bs]) (by simp [bs]) hr,
-    c15_min_batchable id {} 1 bs (by simp [bs]) (by simp [bs]) hr,
-    c15_concat_batchable id _ 1 bs (by simp [bs]) (by simp [bs]) hr, ?_⟩
-  show (multiArg vsum none bs.flatten).get _ = _
-  rw [(c15_multiarg_pointwise vsum none _ (by simp [bs]) _).1]
-  simp [bs, Arr.vec, vsum, fold1]; grind
+  refine ⟨c15_sum_batchable Alg.rat id {} 1 bs (by simp [bs]) (by simp [bs]) hr,
+    c15_min_batchable Alg.rat id {} 1 bs (by simp [bs]) (by simp [bs]) hr,
+    c15_concat_batchable Alg.rat id _ 1 bs (by simp [bs]) (by simp [bs]) hr, ?_⟩
+  show (multiArg (vsum Alg.rat) .none bs.flatten).get _ = _
+  rw [(c15_multiarg_pointwise (vsum Alg.rat) .none _ (by simp [bs]) _).1]
+  simp [bs, Arr.vec, vsum, fold1, Alg.rat]; grind
+
+/-! ### the dtypes for which the law holds, and the one for which it does not -/
+
+/-- the four marked reductions are batchable over exact rationals, over every fixed-width integer
+type with NumPy's wrap-around (int64, int32, uint8, uint64, …: overflow does not break the law)
+and over bool; `min` and `max` also over IEEE binary64 including NaN and ±inf -/
+theorem c15_sum_dtype_partial (kw : Kw) :
+    (∀ sq, IsBatchable (sem Alg.rat sq kw .sum) ∧ IsBatchable (sem Alg.rat sq kw .prod) ∧
+           IsBatchable (sem Alg.rat sq kw .min) ∧ IsBatchable (sem Alg.rat sq kw .max)) ∧
+    (∀ bits signed sq,
+           IsBatchable (sem (Alg.wrap bits signed) sq kw .sum) ∧ IsBatchable (sem (Alg.wrap bits signed) sq kw .prod) ∧
+           IsBatchable (sem (Alg.wrap bits signed) sq kw .min) ∧ IsBatchable (sem (Alg.wrap bits signed) sq kw .max)) ∧
+    (∀ sq, IsBatchable (sem Alg.bool sq kw .sum) ∧ IsBatchable (sem Alg.bool sq kw .prod) ∧
+           IsBatchable (sem Alg.bool sq kw .min) ∧ IsBatchable (sem Alg.bool sq kw .max)) ∧
+    (∀ sq, IsBatchable (sem Alg.f64 sq kw .min) ∧ IsBatchable (sem Alg.f64 sq kw .max)) :=
+  ⟨fun sq => ⟨c15_sum_batchable _ sq kw, c15_prod_batchable _ sq kw, c15_min_batchable _ sq kw, c15_max_batchable _ sq kw⟩,
+   fun _ _ sq => ⟨c15_sum_batchable _ sq kw, c15_prod_batchable _ sq kw, c15_min_batchable _ sq kw, c15_max_batchable _ sq kw⟩,
+   fun sq => ⟨c15_sum_batchable _ sq kw, c15_prod_batchable _ sq kw, c15_min_batchable _ sq kw, c15_max_batchable _ sq kw⟩,
+   fun sq => ⟨c15_min_batchable _ sq kw, c15_max_batchable _ sq kw⟩⟩
+
+/-- wrap-around really happens in the model: `int64` `2^62 + 2^62 + 2^62` (a cut 1+2 and the
+unbatched sum agree on the wrapped value `-2^62`), `uint8` `200 + 100 = 44` -/
+example :
+    let big : Arr Int := Arr.scalar 4611686018427387904
+    (batched (sem (Alg.wrap 64 true) id {} .sum) [[big], [big, big]]).get (fun _ => 0) = -4611686018427387904 ∧
+    (sem (Alg.wrap 64 true) id {} .sum [big, big, big]).get (fun _ => 0) = -4611686018427387904 ∧
+    (Alg.wrap 8 false).add 200 100 = 44 := by decide
+
+namespace Aux
+/-- 2^53, 1.0, 2^53 + 2 as binary64 ordinals -/
+def f2p53 : F64 := .fin 4845873199050653696
+def f1 : F64 := F64.one
+def f2p53p2 : F64 := .fin 4845873199050653697
+def fs (v : F64) : Arr F64 := Arr.scalar v
+
+theorem f64_add_facts :
+    F64.add (F64.add f2p53 f1) f1 = f2p53 ∧ F64.add f2p53 (F64.add f1 f1) = f2p53p2 ∧ f2p53 ≠ f2p53p2 := by decide
+
+theorem get_multi {α : Type} [Inhabited α] (f : List α → α) (ax : AxisArg) (args : List (Arr α)) (h : 2 ≤ args.length) (i : Idx) :
+    (multiArg f ax args).get i = f (args.map fun x => x.get i) := by rw [multiArg_ge2 f ax args h]
+end Aux
+
+/-- binary64 addition is not associative: `(2^53 + 1) + 1 = 2^53` but `2^53 + (1 + 1) = 2^53 + 2` -/
+theorem c15_f64_add_not_associative :
+    ∃ a b c : F64, Alg.f64.add (Alg.f64.add a b) c ≠ Alg.f64.add a (Alg.f64.add b c) :=
+  ⟨f2p53, f1, f1, by decide⟩
+
+/-- the batch law as stated ("= ", for every dtype) is FALSE for `sum` over float64: with
+`a = 2^53, b = c = 1.0` the cut `[a] [b, c]` gives `2^53 + 2`, the unbatched sum `2^53`
+(replayed on the real code by the check: known finding C15-float-batch-rounding) -/
+theorem c15_sum_dtype_full_fails (sq : F64 → F64) (kw : Kw) : ¬ IsBatchable (sem Alg.f64 sq kw .sum) := by
+  intro h
+  have h := h 0 [[fs f2p53], [fs f1, fs f1]] (by simp) (by simp) (by simp [fs, Arr.scalar])
+  have h := congrArg (fun a => a.get (fun _ => 0)) h
+  simp only [batched, applyBatch, sem, List.map, List.flatten, List.append] at h
+  rw [get_multi _ _ _ (by simp), get_multi _ _ _ (by simp)] at h
+  simp only [List.map, get_multi _ _ [fs f1, fs f1] (by simp)] at h
+  revert h
+  simp only [fs, Arr.scalar, vsum, fold1, List.foldl, Alg.f64]
+  decide
+
+/-- likewise `prod`: `(0.1 · 0.1) · 0.3 = 0.0030000000000000005` but `0.1 · (0.1 · 0.3) = 0.003` -/
+theorem c15_prod_dtype_full_fails (sq : F64 → F64) (kw : Kw) : ¬ IsBatchable (sem Alg.f64 sq kw .prod) := by
+  intro h
+  -- ordinals of 0.1 and 0.3
+  have h := h 0 [[fs (.fin 4591870180066957722)], [fs (.fin 4591870180066957722), fs (.fin 4599075939470750515)]]
+    (by simp) (by simp) (by simp [fs, Arr.scalar])
+  have h := congrArg (fun a => a.get (fun _ => 0)) h
+  simp only [batched, applyBatch, sem, List.map, List.flatten, List.append] at h
+  rw [get_multi _ _ _ (by simp), get_multi _ _ _ (by simp)] at h
+  simp only [List.map, get_multi _ _ [fs (.fin 4591870180066957722), fs (.fin 4599075939470750515)] (by simp)] at h
+  revert h
+  simp only [fs, Arr.scalar, vprod, fold1, List.foldl, Alg.f64]
+  decide
+
+/-! ### NaN: a reduction over several arguments returns NaN wherever one of them holds NaN
+(NumPy's behaviour; after `fix: … skipna=False` also the xarray backend's) -/
+
+namespace Aux
+theorem foldl_absorb {α : Type} (op : α → α → α) (n : α) (hl : ∀ x, op n x = n) (hr : ∀ x, op x n = n) :
+    ∀ (xs : List α) (acc : α), (acc = n ∨ n ∈ xs) → xs.foldl op acc = n := by
+  intro xs
+  induction xs with
+  | nil => intro acc h; simpa using h
+  | cons y ys ih =>
+    intro acc h
+    simp only [List.foldl_cons]
+    apply ih
+    rcases h with h | h
+    · left; rw [h, hl]
+    · simp only [List.mem_cons] at h
+      rcases h with h | h
+      · left; rw [← h, hr]
+      · right; exact h
+
+theorem fold1_absorb {α : Type} (op : α → α → α) (n d : α) (hl : ∀ x, op n x = n) (hr : ∀ x, op x n = n)
+    (xs : List α) (h : n ∈ xs) : fold1 op d xs = n := by
+  cases xs with
+  | nil => simp at h
+  | cons y ys =>
+    simp only [fold1]
+    apply foldl_absorb op n hl hr
+    simp only [List.mem_cons] at h
+    rcases h with h | h
+    · left; exact h.symm
+    · right; exact h
+
+theorem f64_add_nan_l (x : F64) : F64.add .nan x = .nan := by cases x <;> rfl
+theorem f64_add_nan_r (x : F64) : F64.add x .nan = .nan := by cases x <;> rfl
+theorem f64_mul_nan_l (x : F64) : F64.mul .nan x = .nan := by cases x <;> rfl
+theorem f64_mul_nan_r (x : F64) : F64.mul x .nan = .nan := by cases x <;> rfl
+theorem f64_min_nan_l (x : F64) : F64.fmin .nan x = .nan := by cases x <;> rfl
+theorem f64_min_nan_r (x : F64) : F64.fmin x .nan = .nan := by cases x <;> rfl
+theorem f64_max_nan_l (x : F64) : F64.fmax .nan x = .nan := by cases x <;> rfl
+theorem f64_max_nan_r (x : F64) : F64.fmax x .nan = .nan := by cases x <;> rfl
+theorem f64_div_nan_l (x : F64) : F64.div .nan x = .nan := by cases x <;> rfl
+end Aux
+
+/-- `sum`, `prod`, `min`, `max` and `mean` of ≥ 2 float64 arguments are NaN at every index at
+which some argument is NaN (no `skipna`) -/
+theorem c15_nan_propagates (sq : F64 → F64) (kw : Kw) (op : Op) (hop : op ∈ [Op.sum, .prod, .min, .max, .mean])
+    (args : List (Arr F64)) (h : 2 ≤ args.length) (i : Idx) (hn : ∃ x ∈ args, x.get i = F64.nan) :
+    (sem Alg.f64 sq kw op args).get i = F64.nan := by
+  have hmem : F64.nan ∈ args.map (fun x => x.get i) := by
+    obtain ⟨x, hx, hxi⟩ := hn
+    exact List.mem_map.mpr ⟨x, hx, hxi⟩
+  simp only [List.mem_cons, List.not_mem_nil, or_false] at hop
+  rcases hop with rfl | rfl | rfl | rfl | rfl
+  · show (multiArg _ _ _).get i = _
+    rw [get_multi _ _ _ h]; exact fold1_absorb _ _ _ f64_add_nan_l f64_add_nan_r _ hmem
+  · show (multiArg _ _ _).get i = _
+    rw [get_multi _ _ _ h]; exact fold1_absorb _ _ _ f64_mul_nan_l f64_mul_nan_r _ hmem
+  · show (multiArg _ _ _).get i = _
+    rw [get_multi _ _ _ h]; exact fold1_absorb _ _ _ f64_min_nan_l f64_min_nan_r _ hmem
+  · show (multiArg _ _ _).get i = _
+    rw [get_multi _ _ _ h]; exact fold1_absorb _ _ _ f64_max_nan_l f64_max_nan_r _ hmem
+  · show (multiArg _ _ _).get i = _
+    rw [get_multi _ _ _ h]
+    show F64.div (vsum Alg.f64 _) _ = _
+    have : vsum Alg.f64 (args.map fun x => x.get i) = F64.nan := fold1_absorb _ _ _ f64_add_nan_l f64_add_nan_r _ hmem
+    rw [this, f64_div_nan_l]
+
+/-- … and so is the reduction of ONE float64 array over all its elements -/
+theorem c15_nan_propagates_all (sq : F64 → F64) (x : Arr F64) (hn : F64.nan ∈ x.elems) (i : Idx) :
+    (sem Alg.f64 sq {} .sum [x]).get i = F64.nan ∧ (sem Alg.f64 sq {} .max [x]).get i = F64.nan ∧
+    (sem Alg.f64 sq {} .mean [x]).get i = F64.nan := by
+  refine ⟨fold1_absorb _ _ _ f64_add_nan_l f64_add_nan_r _ hn, fold1_absorb _ _ _ f64_max_nan_l f64_max_nan_r _ hn, ?_⟩
+  show F64.div (vsum Alg.f64 _) _ = _
+  have : vsum Alg.f64 x.elems = F64.nan := fold1_absorb _ _ _ f64_add_nan_l f64_add_nan_r _ hn
+  rw [this, f64_div_nan_l]
+
+example : (sem Alg.f64 id {} .sum [Arr.vec [F64.one, .nan], Arr.vec [F64.one, F64.one]]).get (fun _ => 1) = F64.nan :=
+  c15_nan_propagates id {} .sum (by simp) _ (by simp) _ ⟨_, List.mem_cons_self, by simp [Arr.vec]⟩
+
+/-! ### the literal reading of the law -/
+
+section literal
+variable {α : Type} [Inhabited α]
+
+/-- `concat` satisfies the law exactly as the property text writes it: every batch (also a
+single array, also one batch holding everything) goes through `concat` -/
+theorem c15_concat_batchable_literal (A : Alg α) (sq : α → α) (kw : Kw) :
+    IsBatchableLit (sem A sq kw .concat) := by
+  intro r batches hbne hne hrank
+  show concatKw kw.axis (batches.map (concatKw kw.axis)) = concatKw kw.axis batches.flatten
+  have hmap : batches.map (concatKw kw.axis) = batches.map (concat (normAx (axisOne kw.axis) r)) := by
+    apply List.map_congr_left
+    intro b hb
+    exact concatKw_uniform kw.axis r b (hne b hb) (hrank b hb)
+  have hfne : batches.flatten ≠ [] := by
+    match batches, hbne with
+    | b :: rest, _ =>
+      match b, hne b (by simp) with
+      | x :: xs, _ => simp
+  rw [hmap, concatKw_uniform kw.axis r _ (by simpa using hbne), concatKw_uniform kw.axis r _ hfne, concat_batches _ _ hne]
+  · intro x hx
+    simp only [List.mem_flatten] at hx
+    obtain ⟨b, hb, hxb⟩ := hx
+    exact hrank b hb x hxb
+  · intro y hy
+    simp only [List.mem_map] at hy
+    obtain ⟨b, hb, rfl⟩ := hy
+    exact concat_rank _ r b (hne b hb) (hrank b hb)
+
+namespace Aux
+theorem applyBatch_of_two {α : Type} (f : List (Arr α) → Arr α) (b : List (Arr α)) (h : 2 ≤ b.length) : applyBatch f b = f b := by
+  match b, h with
+  | x :: y :: r, _ => rfl
+
+theorem lit_eq_batched {α : Type} (f : List (Arr α) → Arr α) (batches : List (List (Arr α))) (h : NoSingleton batches = true) :
+    batchedLit f batches = batched f batches := by
+  unfold batchedLit batched
+  congr 1
+  apply List.map_congr_left
+  intro b hb
+  simp only [NoSingleton, Bool.and_eq_true, List.all_eq_true, decide_eq_true_eq] at h
+  exact (applyBatch_of_two f b (h.2 b hb)).symm
+end Aux
+
+omit [Inhabited α] in
+/-- on the partitions without a single-array batch (≥ 2 batches, each of ≥ 2 arrays) the literal
+law coincides with what `reduce` computes, hence holds for every batchable function -/
+theorem c15_literal_partial (f : List (Arr α) → Arr α) (hf : IsBatchable f)
+    (r : Nat) (batches : List (List (Arr α))) (hns : NoSingleton batches = true)
+    (hrank : ∀ b ∈ batches, ∀ x ∈ b, x.rank = r) :
+    batchedLit f batches = f batches.flatten := by
+  rw [lit_eq_batched f batches hns]
+  have h := hns
+  simp only [NoSingleton, Bool.and_eq_true, List.all_eq_true, decide_eq_true_eq] at h
+  apply hf r batches h.1 _ hrank
+  intro b hb hnil
+  have := h.2 b hb
+  simp [hnil] at this
+
+/-- the literal law is FALSE for the marked reductions, whatever the dtype: with no `axis` a
+single array is reduced to a scalar, so `f(f(x), f(y))` has rank 0 where `f(x, y)` has the rank
+of `x` (witness: two vectors in two singleton batches; replayed on the real code: known finding
+C15-literal-singleton-batch) -/
+theorem c15_literal_full_fails (A : Alg α) (sq : α → α) (a : Option Int) :
+    let kw : Kw := { axis := match a with | none => .none | some a => .one a }
+    ¬ IsBatchableLit (sem A sq kw .sum) ∧ ¬ IsBatchableLit (sem A sq kw .prod) ∧
+    ¬ IsBatchableLit (sem A sq kw .min) ∧ ¬ IsBatchableLit (sem A sq kw .max) := by
+  intro kw
+  have key : ∀ f : List α → α, ¬ IsBatchableLit (multiArg f kw.axis) := by
+    intro f h
+    have h := h 1 [[Arr.vec [default, default]], [Arr.vec [default, default]]] (by simp) (by simp) (by simp [Arr.vec])
+    have h := congrArg Arr.rank h
+    cases a <;> simp [kw, batchedLit, multiArg, reduceKw, reduceAll, reduceAx, stack, Arr.vec] at h
+  exact ⟨key _, key _, key _, key _⟩
+
+end literal
 
 /-! ### not batchable (concrete witnesses; rank-0 arrays suffice) -/
 
 namespace Aux
-def s (v : Val) : Arr := Arr.scalar v
-
-theorem get_multi (f : List Val → Val) (ax : Option Int) (args : List Arr) (h : 2 ≤ args.length) (i : Idx) :
-    (multiArg f ax args).get i = f (args.map fun x => x.get i) := by rw [multiArg_ge2 f ax args h]
+def s (v : Rat) : Arr Rat := Arr.scalar v
 end Aux
 
 /-- `mean(mean(0,0), 3) = 3/2 ≠ 1 = mean(0,0,3)` (the last chunk of a `reduce` is shorter
 whenever the batch size does not divide the size; it is passed through when it has length 1) -/
-theorem c15_mean_not_batchable (sq : Val → Val) (kw : Kw) : ¬ IsBatchable (sem sq kw .mean) := by
+theorem c15_mean_not_batchable (sq : Rat → Rat) (kw : Kw) : ¬ IsBatchable (sem Alg.rat sq kw .mean) := by
   intro h
   have h := h 0 [[s 0, s 0], [s 3]] (by simp) (by simp) (by simp [s, Arr.scalar])
   have h := congrArg (fun a => a.get (fun _ => 0)) h
-  simp [batched, applyBatch, sem, get_multi, s, Arr.scalar, vmean, vsum, fold1] at h
+  simp [batched, applyBatch, sem, get_multi, s, Arr.scalar, vmean, vsum, fold1, Alg.rat] at h
   grind
 
 /-- `var(var(0,2), var(0,2)) = var(1,1) = 0 ≠ 1 = var(0,2,0,2)` -/
-theorem c15_var_not_batchable (sq : Val → Val) (kw : Kw) : ¬ IsBatchable (sem sq kw .var) := by
+theorem c15_var_not_batchable (sq : Rat → Rat) (kw : Kw) : ¬ IsBatchable (sem Alg.rat sq kw .var) := by
   intro h
   have h := h 0 [[s 0, s 2], [s 0, s 2]] (by simp) (by simp) (by simp [s, Arr.scalar])
   have h := congrArg (fun a => a.get (fun _ => 0)) h
-  simp [batched, applyBatch, sem, get_multi, s, Arr.scalar, vvar, vmean, vsum, fold1] at h
+  simp [batched, applyBatch, sem, get_multi, s, Arr.scalar, vvar, vmean, vsum, fold1, Alg.rat] at h
   grind
 
 /-- `std(std(0,2), std(0,2)) = std(1,1) = 0 ≠ 1 = std(0,2,0,2)`, for every square-root function
 that is right on 0 and 1 -/
-theorem c15_std_not_batchable (sq : Val → Val) (h0 : sq 0 = 0) (h1 : sq 1 = 1) (kw : Kw) :
-    ¬ IsBatchable (sem sq kw .std) := by
+theorem c15_std_not_batchable (sq : Rat → Rat) (h0 : sq 0 = 0) (h1 : sq 1 = 1) (kw : Kw) :
+    ¬ IsBatchable (sem Alg.rat sq kw .std) := by
   intro h
   have h := h 0 [[s 0, s 2], [s 0, s 2]] (by simp) (by simp) (by simp [s, Arr.scalar])
   have h := congrArg (fun a => a.get (fun _ => 0)) h
-  have e1 : vvar [0, 2] = 1 := by simp [vvar, vmean, vsum, fold1]; grind
-  have e2 : vvar [1, 1] = 0 := by simp [vvar, vmean, vsum, fold1]; grind
-  have e3 : vvar [0, 2, 0, 2] = 1 := by simp [vvar, vmean, vsum, fold1]; grind
+  have e1 : vvar Alg.rat [0, 2] = 1 := by simp [vvar, vmean, vsum, fold1, Alg.rat]; grind
+  have e2 : vvar Alg.rat [1, 1] = 0 := by simp [vvar, vmean, vsum, fold1, Alg.rat]; grind
+  have e3 : vvar Alg.rat [0, 2, 0, 2] = 1 := by simp [vvar, vmean, vsum, fold1, Alg.rat]; grind
   simp [batched, applyBatch, sem, get_multi, s, Arr.scalar, vstd, e1, e2, e3, h0, h1] at h
 
-/-- `stack(stack(a,b), stack(c,d))` has one axis more than `stack(a,b,c,d)` -/
-theorem c15_stack_not_batchable (sq : Val → Val) (kw : Kw) : ¬ IsBatchable (sem sq kw .stack) := by
+/-- `stack(stack(a,b), stack(c,d))` has one axis more than `stack(a,b,c,d)` (any dtype) -/
+theorem c15_stack_not_batchable {α : Type} [Inhabited α] (A : Alg α) (sq : α → α) (kw : Kw) :
+    ¬ IsBatchable (sem A sq kw .stack) := by
   intro h
-  have h := h 0 [[s 0, s 0], [s 0, s 0]] (by simp) (by simp) (by simp [s, Arr.scalar])
+  have h := h 0 [[Arr.scalar default, Arr.scalar default], [Arr.scalar default, Arr.scalar default]]
+    (by simp) (by simp) (by simp [Arr.scalar])
   have h := congrArg Arr.rank h
-  simp [batched, applyBatch, sem, stackKw, stack, s, Arr.scalar] at h
+  simp [batched, applyBatch, sem, stackKw, stack, Arr.scalar] at h
+
+/-- the same three refutations in binary64 (the witnesses are small integers: no rounding is
+involved): `mean(mean(0,0),3) = 1.5 ≠ 1`, `var(var(0,2),var(0,2)) = 0 ≠ 1` -/
+theorem c15_mean_var_not_batchable_f64 (sq : F64 → F64) (kw : Kw) :
+    ¬ IsBatchable (sem Alg.f64 sq kw .mean) ∧ ¬ IsBatchable (sem Alg.f64 sq kw .var) := by
+  constructor
+  · intro h
+    have h := h 0 [[fs (.fin 0), fs (.fin 0)], [fs (F64.ofInt 3)]] (by simp) (by simp) (by simp [fs, Arr.scalar])
+    have h := congrArg (fun a => a.get (fun _ => 0)) h
+    simp only [batched, applyBatch, sem, List.map, List.flatten, List.append] at h
+    rw [get_multi _ _ _ (by simp), get_multi _ _ _ (by simp)] at h
+    simp only [List.map, get_multi _ _ [fs (.fin 0), fs (.fin 0)] (by simp)] at h
+    revert h
+    simp only [fs, Arr.scalar, vmean, vsum, fold1, List.foldl, Alg.f64, List.length]
+    decide
+  · intro h
+    have h := h 0 [[fs (.fin 0), fs (F64.ofInt 2)], [fs (.fin 0), fs (F64.ofInt 2)]] (by simp) (by simp) (by simp [fs, Arr.scalar])
+    have h := congrArg (fun a => a.get (fun _ => 0)) h
+    simp only [batched, applyBatch, sem, List.map, List.flatten, List.append] at h
+    rw [get_multi _ _ _ (by simp), get_multi _ _ _ (by simp)] at h
+    simp only [List.map, get_multi _ _ [fs (.fin 0), fs (F64.ofInt 2)] (by simp)] at h
+    revert h
+    simp only [fs, Arr.scalar, vvar, vmean, vsum, fold1, List.foldl, Alg.f64, List.length, List.map]
+    decide
 
 /-! ### the marks in the source (generated table) -/
 
@@ -124,44 +396,62 @@ def provedBatchable : List Op := [.sum, .prod, .min, .max, .concat]
 def refuted : List Op := [.mean, .std, .var, .stack]
 
 namespace Aux
-theorem proved_ok (sq : Val → Val) (kw : Kw) : ∀ op ∈ provedBatchable, IsBatchable (sem sq kw op) := by
+theorem proved_ok {α : Type} [Inhabited α] (A : Alg α) [Std.Associative A.add] [Std.Associative A.mul]
+    [Std.Associative A.min] [Std.Associative A.max] (sq : α → α) (kw : Kw) :
+    ∀ op ∈ provedBatchable, IsBatchable (sem A sq kw op) := by
   intro op hop
   simp only [provedBatchable, List.mem_cons, List.not_mem_nil, or_false] at hop
   rcases hop with rfl | rfl | rfl | rfl | rfl
-  · exact c15_sum_batchable sq kw
-  · exact c15_prod_batchable sq kw
-  · exact c15_min_batchable sq kw
-  · exact c15_max_batchable sq kw
-  · exact c15_concat_batchable sq kw
+  · exact c15_sum_batchable A sq kw
+  · exact c15_prod_batchable A sq kw
+  · exact c15_min_batchable A sq kw
+  · exact c15_max_batchable A sq kw
+  · exact c15_concat_batchable A sq kw
 
-theorem refuted_ok (sq : Val → Val) (h0 : sq 0 = 0) (h1 : sq 1 = 1) (kw : Kw) :
-    ∀ op ∈ refuted, ¬ IsBatchable (sem sq kw op) := by
+theorem refuted_ok (sq : Rat → Rat) (h0 : sq 0 = 0) (h1 : sq 1 = 1) (kw : Kw) :
+    ∀ op ∈ refuted, ¬ IsBatchable (sem Alg.rat sq kw op) := by
   intro op hop
   simp only [refuted, List.mem_cons, List.not_mem_nil, or_false] at hop
   rcases hop with rfl | rfl | rfl | rfl
   · exact c15_mean_not_batchable sq kw
   · exact c15_std_not_batchable sq h0 h1 kw
   · exact c15_var_not_batchable sq kw
-  · exact c15_stack_not_batchable sq kw
+  · exact c15_stack_not_batchable Alg.rat sq kw
 
 /-- side conditions of the generated table, decided on the table itself -/
 theorem marked_are_proved : ∀ p ∈ Gen.marks, p.2 = true → p.1 ∈ provedBatchable := by decide
 theorem refuted_are_unmarked : ∀ p ∈ Gen.marks, p.1 ∈ refuted → p.2 = false := by decide
 end Aux
 
-/-- every function the source marks `@batchable` is batchable -/
-theorem c15_marks_sound (sq : Val → Val) (kw : Kw) :
-    ∀ p ∈ Gen.marks, p.2 = true → IsBatchable (sem sq kw p.1) :=
-  fun p hp ht => proved_ok sq kw p.1 (marked_are_proved p hp ht)
+/-- every function the source marks `@batchable` is batchable, for every dtype whose `+`, `×`,
+`min`, `max` are associative (exact rationals, wrapping integers, bool: instances in
+Lemmas/Backend.lean) -/
+theorem c15_marks_sound {α : Type} [Inhabited α] (A : Alg α) [Std.Associative A.add] [Std.Associative A.mul]
+    [Std.Associative A.min] [Std.Associative A.max] (sq : α → α) (kw : Kw) :
+    ∀ p ∈ Gen.marks, p.2 = true → IsBatchable (sem A sq kw p.1) :=
+  fun p hp ht => proved_ok A sq kw p.1 (marked_are_proved p hp ht)
+
+/-- … and satisfies the literal law on every partition without a single-array batch -/
+theorem c15_marks_sound_literal_partial {α : Type} [Inhabited α] (A : Alg α) [Std.Associative A.add]
+    [Std.Associative A.mul] [Std.Associative A.min] [Std.Associative A.max] (sq : α → α) (kw : Kw) :
+    ∀ p ∈ Gen.marks, p.2 = true → ∀ (r : Nat) (batches : List (List (Arr α))), NoSingleton batches = true →
+      (∀ b ∈ batches, ∀ x ∈ b, x.rank = r) → batchedLit (sem A sq kw p.1) batches = sem A sq kw p.1 batches.flatten :=
+  fun p hp ht r batches hns hr => c15_literal_partial _ (c15_marks_sound A sq kw p hp ht) r batches hns hr
+
+/-- the marks are NOT sound for float64 as the law is written: `sum` is marked and violates it -/
+theorem c15_marks_sound_f64_full_fails (sq : F64 → F64) (kw : Kw) :
+    ¬ ∀ p ∈ Gen.marks, p.2 = true → IsBatchable (sem Alg.f64 sq kw p.1) := by
+  intro h
+  exact c15_sum_dtype_full_fails sq kw (h (.sum, true) (by decide) rfl)
 
 /-- no function that is provably not batchable (mean, std, var, stack) is marked -/
-theorem c15_marks_complete_enough (sq : Val → Val) (h0 : sq 0 = 0) (h1 : sq 1 = 1) (kw : Kw) :
-    ∀ p ∈ Gen.marks, p.1 ∈ refuted → p.2 = false ∧ ¬ IsBatchable (sem sq kw p.1) :=
+theorem c15_marks_complete_enough (sq : Rat → Rat) (h0 : sq 0 = 0) (h1 : sq 1 = 1) (kw : Kw) :
+    ∀ p ∈ Gen.marks, p.1 ∈ refuted → p.2 = false ∧ ¬ IsBatchable (sem Alg.rat sq kw p.1) :=
   fun p hp hr => ⟨refuted_are_unmarked p hp hr, refuted_ok sq h0 h1 kw p.1 hr⟩
 
-/-- for the nine variadic functions the mark is exactly right -/
-theorem c15_marks_exact_variadic (sq : Val → Val) (h0 : sq 0 = 0) (h1 : sq 1 = 1) (kw : Kw) :
-    ∀ p ∈ Gen.marks, p.1.arity = none → (p.2 = true ↔ IsBatchable (sem sq kw p.1)) := by
+/-- for the nine variadic functions the mark is exactly right (exact arithmetic) -/
+theorem c15_marks_exact_variadic (sq : Rat → Rat) (h0 : sq 0 = 0) (h1 : sq 1 = 1) (kw : Kw) :
+    ∀ p ∈ Gen.marks, p.1.arity = none → (p.2 = true ↔ IsBatchable (sem Alg.rat sq kw p.1)) := by
   intro p hp har
   have hcases : p.1 ∈ provedBatchable ∨ p.1 ∈ refuted := by
     have : ∀ op : Op, op.arity = none → op ∈ provedBatchable ∨ op ∈ refuted := by
@@ -169,7 +459,7 @@ theorem c15_marks_exact_variadic (sq : Val → Val) (h0 : sq 0 = 0) (h1 : sq 1 =
     exact this p.1 har
   rcases hcases with hb | hr
   · constructor
-    · intro _; exact proved_ok sq kw p.1 hb
+    · intro _; exact proved_ok Alg.rat sq kw p.1 hb
     · intro _
       have : ∀ p ∈ Gen.marks, p.1 ∈ provedBatchable → p.2 = true := by decide
       exact this p hp hb
@@ -186,7 +476,8 @@ theorem c15_marks_table_wellformed :
 /-- non-vacuity of the table theorems: something is marked, something refuted is listed, and
 the identity-on-{0,1} square root exists -/
 example : (Op.sum, true) ∈ Gen.marks ∧ (Op.var, false) ∈ Gen.marks ∧ (Op.concat, true) ∈ Gen.marks := by decide
-example : ∃ sq : Val → Val, sq 0 = 0 ∧ sq 1 = 1 := ⟨id, rfl, rfl⟩
-example : ¬ IsBatchable (sem id {} .std) := c15_std_not_batchable id rfl rfl {}
+example : ∃ sq : Rat → Rat, sq 0 = 0 ∧ sq 1 = 1 := ⟨id, rfl, rfl⟩
+example : ¬ IsBatchable (sem Alg.rat id {} .std) := c15_std_not_batchable id rfl rfl {}
+example : NoSingleton [[Arr.vec [(1 : Rat)], Arr.vec [2]], [Arr.vec [3], Arr.vec [4]]] = true := by decide
 
 end EkwVerif.Backend
